@@ -43,7 +43,10 @@ S_ListenOK == /\ pc = "listen" /\ now >= busy
               /\ ready' = now /\ pc' = "serving"                                  \* close(t.readyC); s.Serve(l)
               /\ UNCHANGED <<now, i, nextAt, ret, err, cancelled, busy, cancel, rq>>
 
-\* <-ctx.Done(); s.Close(): Serve returns http.ErrServerClosed, fn's deferred wg.Wait() is satisfied, serve returns nil
+\* <-ctx.Done(); s.Close(): Serve returns http.ErrServerClosed, fn's deferred wg.Wait() is satisfied, serve returns nil.
+\* Close() does not wait for requests that are still being handled (a graceful Shutdown would: this step would then
+\* need "no request in flight" as a further enabling condition, and Ends would fail); the loopback driver has such a
+\* request in one scenario.
 S_Closed == /\ pc = "serving" /\ cancelled /\ Return(FALSE)
             /\ UNCHANGED <<now, i, nextAt, ready, cancelled, busy, cancel, rq>>
 
